@@ -6,8 +6,12 @@ MOTION/PRINT/TRAJECTORY/EACH MD, SUBSYS/TOPOLOGY COORD_FILE_NAME, SUBSYS/VELOCIT
 positions from the xyz file and the velocities from the VELOCITY section (as CP2K does),
 integrates free flight and writes <project>-pos-1.xyz and <project>-vel-1.xyz (one frame every
 EACH steps, starting with step 0) and <project>-1.ener.  The two trajectory files become
-visible according to two independent schedules (fakemd.py).
+visible according to two independent schedules (fakemd.py); with the control key unit = "bytes"
+the schedule amounts are byte counts, i.e. each file can be flushed at any byte position
+(inside the last number of a frame's last line, before its newline, ...).  The byte length of
+every frame of both files is left in <ctl dir>/layout for the harness to cross-check.
 """
+import json
 import os
 import sys
 
@@ -80,8 +84,11 @@ def main():
         ke = 0.5 * sum(x * x for vv in vel for x in vv)
         ener.append(f"{s:10d} {s * dt:16.6f} {ke:18.9f} {300.0:16.9f} {float(s):18.9f} {ke + s:18.9f} {0.0:14.9f}\n")
     mode = ctl.cfg.get("cut", "line")
-    ptraj = fakemd.Stream(f"{name}-pos-1.xyz", pblobs, [fakemd.text_cut(b, mode) for b in pblobs])
-    vtraj = fakemd.Stream(f"{name}-vel-1.xyz", vblobs, [fakemd.text_cut(b, mode) for b in vblobs])
+    unit = ctl.cfg.get("unit", "half")
+    ptraj = fakemd.Stream(f"{name}-pos-1.xyz", pblobs, [fakemd.text_cut(b, mode) for b in pblobs], unit)
+    vtraj = fakemd.Stream(f"{name}-vel-1.xyz", vblobs, [fakemd.text_cut(b, mode) for b in vblobs], unit)
+    if ctl.dir:
+        ctl._put("layout", json.dumps({"pos": [len(b) for b in pblobs], "vel": [len(b) for b in vblobs]}))
 
     def on_start():
         with open(f"{name}-1.ener", "w") as f:
